@@ -44,6 +44,7 @@ def required(tier):
         "layout.custom_ws": 300,
         "augmented_production_checked": 100,
         "cover.layout_parser_init": 5,
+        "grammars.slr_tables": 20,
     }
 
 
@@ -105,8 +106,10 @@ CUSTOM_WS = "_~ "
 CUSTOM_FILLERS = ["", "_", "~", " ", "_~", "~ _", "  "]
 
 
-def parsers_for(text, kind):
+def parsers_for(text, kind, slr=False):
     kw = {"ws": CUSTOM_WS} if kind == "custom_ws" else {}
+    if slr:
+        kw["tables"] = pgx.SLR
     pg = pgx.grammar(text)
     glr = pgx.glr(pg, **kw)
     lr = None
@@ -133,10 +136,14 @@ def one_grammar(ctx, g, alphabet, maxlen):
         "custom_ws": g.text(),
     }
     built = {}
+    # the table kind must not matter for layout handling (main and LAYOUT tables come from one Grammar object)
+    slr = rng.random() < 0.3
+    if slr:
+        ctx.count("grammars.slr_tables")
     try:
         with pgx.watchdog(60):
             for k, t in texts.items():
-                built[k] = parsers_for(t, k)
+                built[k] = parsers_for(t, k, slr)
     except pgx.CaseTimeout:
         ctx.inconc("construction timeout")
         return
@@ -151,7 +158,7 @@ def one_grammar(ctx, g, alphabet, maxlen):
         if rhs != [g.start, "STOP"]:
             ctx.violation("augmented-production-not-main-start", {"grammar": texts[k], "g": g.to_json()}, "after building the layout sub-parser productions[0].rhs is %s" % rhs)
             return
-    case0 = {"g": g.to_json(), "texts": texts}
+    case0 = {"g": g.to_json(), "texts": texts, "slr": slr}
     for w in cfg.all_strings(alphabet, maxlen):
         if not ctx.more():
             return
@@ -286,9 +293,9 @@ def replay(case, ctx):
     mon.install()
     try:
         if case["kind"] == "ws-vs-rule":
-            ws_vs_rule(ctx, g, parsers_for(case["texts"]["ws"], "ws"), parsers_for(case["texts"]["rule"], "rule"), case, case["a"])
+            ws_vs_rule(ctx, g, parsers_for(case["texts"]["ws"], "ws", case.get("slr", False)), parsers_for(case["texts"]["rule"], "rule", case.get("slr", False)), case, case["a"])
         else:
-            built = parsers_for(case["texts"][case["kind"]], case["kind"])
+            built = parsers_for(case["texts"][case["kind"]], case["kind"], case.get("slr", False))
 
             def recon(t, w):
                 pos = []
